@@ -970,6 +970,14 @@ def fam_dde_edges_fixed():
         ops['li'].vars['u'] = ('input', F(0))
         nodes = {f"a{i}": NodeSpec(['li'], _node_overrides(fp, ops, ['li'])) for i in range(n)}
         return ModelSpec('m', ops, nodes, edges_fn(fp), note=note)
+
+    def mk_src(n, edges_fn, note):
+        fp = FP()
+        ops = {'li': op_leaky(fp), 'src': op_source(fp)}
+        ops['li'].vars['u'] = ('input', F(0))
+        nodes = {'s0': NodeSpec(['src'], _node_overrides(fp, ops, ['src']))}
+        nodes.update({f"a{i}": NodeSpec(['li'], _node_overrides(fp, ops, ['li'])) for i in range(n)})
+        return ModelSpec('m', ops, nodes, edges_fn(fp), note=note)
     return [
         ("F10x:fanout-two-delays", mk(3, lambda fp: [E('a0/li/x', 'a1/li/u', fp(), delay=F(1, 2)),
                                                      E('a0/li/x', 'a2/li/u', fp(), delay=F(1))], "one source, two delays")),
@@ -980,6 +988,12 @@ def fam_dde_edges_fixed():
                                                     E('a1/li/x', 'a2/li/u', fp(), delay=F(1))], "two sources into one target")),
         ("F10x:ring", mk(3, lambda fp: [E('a0/li/x', 'a1/li/u', fp(), delay=F(1, 2)), E('a1/li/x', 'a2/li/u', fp(), delay=F(1)),
                                         E('a2/li/x', 'a0/li/u', fp(), delay=F(3, 4))], "ring, three delays")),
+        ("F10x:scalar-source-two-delays", mk_src(2, lambda fp: [E('s0/src/s', 'a0/li/u', fp(), delay=F(1, 2)),
+                                                                E('s0/src/s', 'a1/li/u', fp(), delay=F(1))],
+                                                 "the only node of its type is read with two delays")),
+        ("F10x:integer-delays", mk(3, lambda fp: [E('a0/li/x', 'a1/li/u', fp(), delay=F(1)),
+                                                  E('a1/li/x', 'a2/li/u', fp(), delay=F(2))],
+                                   "delays of 1 and 2 time units (given as Python integers)")),
     ]
 
 
